@@ -612,6 +612,39 @@ pub fn replay_file(path: &str, verbose: bool) -> i32 {
             return 2;
         }
     };
+    if rp.clause.ends_with(".no_abort") {
+        // the violation is the death of the process: run the scenario in a child
+        if std::env::var("DST_ABORT_CHILD").is_ok() {
+            for k in 0..40u64 {
+                let _ = run_scenario(&rp.scenario, crate::rng::mix2(rp.run_seed, k), None, false, false);
+            }
+            return 0;
+        }
+        let st = Command::new(std::env::current_exe().unwrap())
+            .arg("replay")
+            .arg(path)
+            .env("DST_ABORT_CHILD", "1")
+            .stdout(Stdio::null())
+            .stderr(Stdio::piped())
+            .output();
+        return match st {
+            Ok(o) if o.status.code().is_none() || o.status.code() == Some(134) => {
+                let err = String::from_utf8_lossy(&o.stderr);
+                let line = err.lines().find(|l| l.contains("memory allocation") || l.contains("panicked")).unwrap_or("");
+                println!("REPRODUCED {} [{}]: the process running this scenario died ({:?}) {}", rp.clause, rp.signature, o.status, line);
+                println!("VIOLATION property={} replay={}", rp.property, path);
+                1
+            }
+            Ok(_) => {
+                println!("NOT REPRODUCED: the process survives this scenario under 40 schedules");
+                0
+            }
+            Err(e) => {
+                eprintln!("harness error: {}", e);
+                2
+            }
+        };
+    }
     let out = run_scenario(&rp.scenario, rp.run_seed, Some(rp.trace.clone()), false, verbose);
     let v = c.check(&rp.scenario, &out);
     if verbose {
@@ -798,21 +831,32 @@ pub fn check(o: &CheckOpts) -> i32 {
         reported.push(json!({"clause": clause, "signature": sig, "replay": path, "detail": rp.detail}));
         exit = 1;
     }
+    let mut crash_seen: BTreeSet<String> = BTreeSet::new();
     for (idx, why) in &crash_groups {
         let clause = format!("{}.no_abort", c.id());
         let (rs, sc) = gen_scenario(c, o.seed, o.tier, *idx);
         let sig = crash_signature(&sc);
+        if !crash_seen.insert(sig.clone()) {
+            continue;
+        }
+        let n_same = crash_groups.len();
         if let Some(k) = known.iter().find(|k| k.status == "known" && k.property == c.id() && k.clause == clause && k.signature == sig) {
             println!("KNOWN-FINDING: property={} {} [{}] {} (run index {})", c.id(), clause, sig, k.what, idx);
             known_matched.push(format!("{} [{}]", clause, sig));
             continue;
         }
         let path = format!("{}/replays/{}-abort-{}.json", VERIF, c.id(), idx);
+        let why_short = why
+            .split(" | ")
+            .find(|l| l.contains("memory allocation") || l.contains("panicked") || l.contains("abort"))
+            .unwrap_or(why.split(':').next().unwrap_or(""))
+            .to_string();
+        let detail = format!("the process running the simulation died during run index {} ({}); {} runs of this batch died", idx, why_short.trim(), n_same);
         let rp = Replay {
             property: c.id().into(),
             clause: clause.clone(),
             signature: sig.clone(),
-            detail: why.clone(),
+            detail: detail.clone(),
             verif_seed: o.seed,
             tier: tier_name(o.tier).into(),
             index: *idx,
@@ -824,9 +868,17 @@ pub fn check(o: &CheckOpts) -> i32 {
             steps: 0,
         };
         std::fs::write(&path, serde_json::to_string_pretty(&rp).unwrap()).unwrap();
-        println!("violation {} [{}]: {}", clause, sig, why);
+        let status = Command::new(std::env::current_exe().unwrap()).arg("replay").arg(&path).stdout(Stdio::null()).stderr(Stdio::null()).status();
+        match status.map(|s| s.code()) {
+            Ok(Some(1)) => {}
+            other => {
+                eprintln!("harness error: abort replay file {} does not reproduce in a fresh process ({:?})", path, other);
+                return 2;
+            }
+        }
+        println!("violation {} [{}]: {}", clause, sig, detail);
         println!("VIOLATION property={} replay={}", c.id(), path);
-        reported.push(json!({"clause": clause, "signature": sig, "replay": path, "detail": why}));
+        reported.push(json!({"clause": clause, "signature": sig, "replay": path, "detail": detail}));
         exit = 1;
     }
 
